@@ -8,11 +8,11 @@ namespace Plush
 /-- `template.HTMLEscapeString` (text/template `HTMLEscape`): five replacements and NUL ↦ U+FFFD. -/
 def htmlEscapeByte (c : UInt8) : Bytes :=
   if c == 0 then [0xEF, 0xBF, 0xBD]
-  else if c == 34 then b "&#34;"
-  else if c == 39 then b "&#39;"
-  else if c == 38 then b "&amp;"
-  else if c == 60 then b "&lt;"
-  else if c == 62 then b "&gt;"
+  else if c == 34 then [38, 35, 51, 52, 59]      -- &#34;
+  else if c == 39 then [38, 35, 51, 57, 59]      -- &#39;
+  else if c == 38 then [38, 97, 109, 112, 59]    -- &amp;
+  else if c == 60 then [38, 108, 116, 59]        -- &lt;
+  else if c == 62 then [38, 103, 116, 59]        -- &gt;
   else [c]
 
 def htmlEscape (s : Bytes) : Bytes := s.flatMap htmlEscapeByte
